@@ -92,6 +92,7 @@ def strategy(tier: str):
             "registry": _registry(),
             "ops": st.lists(op, min_size=5, max_size=20),
             "listen_mode": st.sampled_from(("fresh", "persistent")),
+            "debug_log": st.sampled_from((False, False, True)),
         }
     )
 
